@@ -21,3 +21,4 @@ def check(A):
         R.trigger_event_rules(A, fl, 'C16')
         R.queue_unbounded_rule(A, fl, 'C16')
         R.sweep_complete_rule(A, fl, 'C16')
+        R.idle_guard_rule(A, fl, 'C16')
